@@ -278,11 +278,12 @@ def shrink_file_contents(cur, fails, budget):
 
 def real_cli_crosscheck(ctx, rep, pool, runs, recs, oracles):
     """Thorough: repeat sampled scenarios with the real CLI in a subprocess (real directory order, real clock)."""
+    from concurrent.futures import ThreadPoolExecutor
     from .. import loader
-    n = int(200 * ctx.scale)
+    n = int(400 * ctx.scale)
     picks = [i for i, (r, o) in enumerate(zip(runs, oracles)) if "text" in o and not r["scenario"].get("out")][:n]
-    checked = 0
-    for i in picks:
+
+    def one(i):
         sc = runs[i]["scenario"]
         scratch = tempfile.mkdtemp(prefix="j2m-c16-", dir="/dev/shm" if os.path.isdir("/dev/shm") else None)
         try:
@@ -296,29 +297,36 @@ def real_cli_crosscheck(ctx, rep, pool, runs, recs, oracles):
             env.pop("TRAVIS", None)
             env.pop("FORCE_COVERAGE", None)
             p = subprocess.run([PYTHON, "-m", "json_to_models", *argv], capture_output=True, text=True, env=env,
-                               timeout=120, cwd=scratch, encoding="utf-8")
-            head, rest = split_header(p.stdout)
-            globs = [a for a in sc["args"] if a.get("glob")]
-            ok = False
-            if p.returncode == 0:
-                if not globs:
-                    ok = rest == oracles[i]["text"] + "\n"
-                elif len(globs) == 1 and len(globs[0]["members"]) <= 4:
-                    perms = list(itertools.permutations(range(len(globs[0]["members"]))))
-                    res = [unwrap(x) for x in pool.map("scenario:job_oracle",
-                                                       [{"scenario": sc, "glob_perm": list(pm)} for pm in perms])]
-                    ok = any("text" in o and rest == o["text"] + "\n" for o in res)
-                else:
-                    continue
-            checked += 1
-            if not ok:
-                rep.violation("real-cli-differs-from-library", {
-                    "run": runs[i], "argv": argv, "status": p.returncode, "stdout": p.stdout[:4000],
-                    "stderr": p.stderr[-1000:], "oracle": oracles[i], "clause": "real subprocess output after header == library text",
-                }, f"real CLI subprocess (exit {p.returncode}) differs from the library result")
-                break
+                               timeout=180, cwd=scratch, encoding="utf-8")
+            return i, argv, p.returncode, p.stdout, p.stderr[-1000:]
         finally:
             shutil.rmtree(scratch, ignore_errors=True)
+
+    with ThreadPoolExecutor(max_workers=max(2, ctx.jobs)) as ex:
+        results = list(ex.map(one, picks))
+    checked = 0
+    for i, argv, rc, stdout, stderr in results:
+        sc = runs[i]["scenario"]
+        head, rest = split_header(stdout)
+        globs = [a for a in sc["args"] if a.get("glob")]
+        ok = False
+        if rc == 0:
+            if not globs:
+                ok = rest == oracles[i]["text"] + "\n"
+            elif len(globs) == 1 and len(globs[0]["members"]) <= 4:
+                perms = list(itertools.permutations(range(len(globs[0]["members"]))))
+                res = [unwrap(x) for x in pool.map("scenario:job_oracle",
+                                                   [{"scenario": sc, "glob_perm": list(pm)} for pm in perms])]
+                ok = any("text" in o and rest == o["text"] + "\n" for o in res)
+            else:
+                continue
+        checked += 1
+        if not ok:
+            rep.violation("real-cli-differs-from-library", {
+                "run": runs[i], "argv": argv, "status": rc, "stdout": stdout[:4000],
+                "stderr": stderr, "oracle": oracles[i], "clause": "real subprocess output after header == library text",
+            }, f"real CLI subprocess (exit {rc}) differs from the library result")
+            break
     return checked
 
 
